@@ -366,7 +366,11 @@ func (e mixinEngine) Gen(prop, tier string, seed uint64, idx int) *runner.Case {
 				jx.AsObj(d["paths"])[fmt.Sprintf("/idless%d_%d", di, i)] = jx.Obj{mt: jx.Obj{"responses": jx.Obj{"200": jx.Obj{"description": "ok"}}}}
 			}
 		}
-		if mm {
+		if mm && idless == 2 {
+			// an id that already ends like a renamed one, with the index of the very mixin that carries it
+			docs = []jx.Obj{mk(0, "sameMixin1", "/p0"), mk(1, "sameMixin0", "/p1"), mk(2, "sameMixin1", "/p2")}
+			docs[0]["paths"].(jx.Obj)["/p0b"] = jx.Obj{m: jx.Obj{"operationId": "sameMixin0", "responses": jx.Obj{"200": jx.Obj{"description": "ok"}}}}
+		} else if mm {
 			docs = []jx.Obj{mk(0, "other", "/p0"), mk(1, "same", "/p1"), mk(2, "same", "/p2")}
 			if idless%2 == 1 {
 				docs[0] = jx.Obj{"swagger": "2.0", "info": jx.Obj{"title": "no paths at all"}}
